@@ -6,6 +6,7 @@ import (
 	"go/constant"
 	"go/token"
 	"go/types"
+	"golang.org/x/tools/go/cfg"
 	"strings"
 
 	"pgoverif/checker/an"
@@ -82,6 +83,110 @@ func enclosedByRangeOver(g *an.Graph, info *types.Info, n ast.Node, fld *types.V
 		rs, ok := m.(*ast.RangeStmt)
 		return ok && an.SelectedField(info, rs.X) == fld
 	}) != nil
+}
+
+// checkJoin: the channel returned by a lifecycle call in commit()/abort() is, when non-nil, appended to a slice on
+// every path of that branch, and that slice is drained (one receive per element, unconditionally) on every path from
+// the call to any call in `later` and to the normal exit.
+func checkJoin(c *core.Ctx, g *an.Graph, info *types.Info, key string, callAtom ast.Node, later []ast.Node) {
+	as, ok := g.Parent(callAtom).(*ast.AssignStmt)
+	var ch types.Object
+	if ok && len(as.Lhs) == 1 && len(as.Rhs) == 1 {
+		ch = an.ObjOf(info, as.Lhs[0])
+	}
+	if ch == nil {
+		c.Bad(key, callAtom.Pos(), "the channel returned by the resource is not kept: an asynchronous step would never be waited for")
+		return
+	}
+	conds := g.CondAtoms(func(ex ast.Expr) bool { return isNeqNil(info, ex, ch) })
+	var slice types.Object
+	var appendAtom, cond ast.Node
+	for _, a := range g.FindAtoms(func(a ast.Node) bool {
+		x, ok := a.(*ast.AssignStmt)
+		if !ok || len(x.Lhs) != 1 || len(x.Rhs) != 1 {
+			return false
+		}
+		call, ok := an.Unparen(x.Rhs[0]).(*ast.CallExpr)
+		if !ok || !an.IsBuiltin(info, call, "append") || len(call.Args) < 2 {
+			return false
+		}
+		if an.ObjOf(info, call.Args[0]) == nil || an.ObjOf(info, call.Args[0]) != an.ObjOf(info, x.Lhs[0]) {
+			return false
+		}
+		for _, arg := range call.Args[1:] {
+			if an.ObjOf(info, arg) == ch {
+				return true
+			}
+		}
+		return false
+	}) {
+		for _, cd := range conds {
+			if g.Dominates(callAtom, cd) && g.GuardedBy(a, cd, true) {
+				appendAtom, cond = a, cd
+				slice = an.ObjOf(info, a.(*ast.AssignStmt).Lhs[0])
+			}
+		}
+	}
+	if appendAtom == nil {
+		c.Bad(key, callAtom.Pos(), "a non-nil channel returned by the resource is not collected (append under `ch != nil`): the asynchronous step is never waited for")
+		return
+	}
+	// every path of the non-nil branch collects it before the next call / the exit
+	skip := g.Search(an.Query{From: cond, Edges: g.Branch(cond, true), ToExit: true,
+		Target: func(a ast.Node) bool { return a == callAtom },
+		Avoid:  func(a ast.Node) bool { return a == appendAtom }})
+	if skip.Found {
+		c.Bad(key, appendAtom.Pos(), "the non-nil channel can escape collection on some path of the `ch != nil` branch")
+		return
+	}
+	// the drain loop
+	var drainX ast.Node
+	var drainBody *ast.BlockStmt
+	var drainVal types.Object
+	var drainRS *ast.RangeStmt
+	for _, a := range g.FindAtoms(func(a ast.Node) bool {
+		ex, ok := a.(ast.Expr)
+		if !ok || an.ObjOf(info, ex) != slice {
+			return false
+		}
+		rs, ok := g.Parent(a).(*ast.RangeStmt)
+		return ok && rs.X == ex && rs.Value != nil
+	}) {
+		rs := g.Parent(a).(*ast.RangeStmt)
+		drainX, drainBody, drainVal, drainRS = a, rs.Body, an.ObjOf(info, rs.Value), rs
+	}
+	if drainX == nil {
+		c.Bad(key, callAtom.Pos(), "the collected channels are never drained: nothing waits for the asynchronous steps")
+		return
+	}
+	isRecv := func(a ast.Node) bool {
+		u, ok := a.(*ast.UnaryExpr)
+		return ok && u.Op == token.ARROW && an.ObjOf(info, u.X) == drainVal
+	}
+	bb := g.BlockOfStmt(drainRS, cfg.KindRangeBody)
+	if bb == nil || !g.PassesWithin(bb, drainBody.Pos(), drainBody.End(), isRecv) {
+		c.Bad(key, drainX.Pos(), "the drain loop does not receive from every collected channel on every path of its body")
+		return
+	}
+	p := g.Search(an.Query{From: callAtom, ToExit: true,
+		Target: func(a ast.Node) bool {
+			for _, l := range later {
+				if a == l {
+					return true
+				}
+			}
+			return false
+		},
+		Avoid: func(a ast.Node) bool { return a == drainX }})
+	if p.Found {
+		what := "return"
+		if p.Target != nil {
+			what = "reach the next phase (" + c.Prog.Rel(p.Target.Pos()) + ")"
+		}
+		c.Bad(key, callAtom.Pos(), "the runtime can %s without draining the channels collected from this step: the step may still be in progress", what)
+		return
+	}
+	c.Ok(key, callAtom.Pos(), "non-nil channels are collected on every path and drained before the next phase and before returning")
 }
 
 func runCSOrder(c *core.Ctx) {
@@ -201,6 +306,12 @@ func runCSOrder(c *core.Ctx) {
 				key := fmt.Sprintf("commit:PreCommit#%d-dirty-handles", i+1)
 				c.Check(enclosedByRangeOver(g, info, pc, dirty), key, pc.Pos(), "ranges over dirtyResourceHandles", "PreCommit is not called in a loop over ctx.dirtyResourceHandles")
 			}
+			for i, pc := range pres {
+				checkJoin(c, g, info, fmt.Sprintf("commit:PreCommit#%d-joined", i+1), pc, commits)
+			}
+			for i, cm := range commits {
+				checkJoin(c, g, info, fmt.Sprintf("commit:Commit#%d-joined", i+1), cm, nil)
+			}
 			// error accumulation: every assignment to err from a variable X is guarded by X != nil
 			assigns := g.FindAtoms(func(a ast.Node) bool {
 				as, ok := a.(*ast.AssignStmt)
@@ -259,6 +370,9 @@ func runCSOrder(c *core.Ctx) {
 		for i, a := range aborts {
 			c.Check(enclosedByRangeOver(g, info, a, dirty), fmt.Sprintf("abort:Abort#%d-dirty-handles", i+1), a.Pos(),
 				"ranges over dirtyResourceHandles", "Abort is not called in a loop over ctx.dirtyResourceHandles: a touched resource may be left un-rolled-back")
+		}
+		for i, a := range aborts {
+			checkJoin(c, g, info, fmt.Sprintf("abort:Abort#%d-joined", i+1), a, nil)
 		}
 		clr := clearingLoopX(g, info)
 		clr2 := isClear(info)
@@ -420,6 +534,31 @@ func runCSDirty(c *core.Ctx) {
 	iface := resourceIface(c, e)
 	if iface == nil {
 		return
+	}
+	if mk := mustMethod(c, e, an.PkgDistsys, "ArchetypeInterface", "ensureCriticalSectionWith"); mk != nil {
+		ctxT := mustType(c, e, an.PkgDistsys, "MPCalContext")
+		var dirty *types.Var
+		if ctxT != nil {
+			dirty = mustField(c, ctxT, "dirtyResourceHandles")
+		}
+		if dirty != nil {
+			g := e.Graph(mk)
+			info := mk.Pkg.Info
+			var handle types.Object
+			if ps := mk.Decl.Type.Params.List; len(ps) > 0 && len(ps[0].Names) > 0 {
+				handle = info.Defs[ps[0].Names[0]]
+			}
+			ok, _ := g.MustPass(nil, func(a ast.Node) bool {
+				as, ok := a.(*ast.AssignStmt)
+				if !ok || len(as.Lhs) != 1 || len(as.Rhs) != 1 {
+					return false
+				}
+				ix, ok := an.Unparen(as.Lhs[0]).(*ast.IndexExpr)
+				return ok && an.SelectedField(info, ix.X) == dirty && an.ObjOf(info, ix.Index) == handle && isBoolConst(info, as.Rhs[0], true)
+			}, nil)
+			c.Check(ok, "ensureCriticalSectionWith:marks-handle-dirty", mk.Pos(), "every path stores dirtyResourceHandles[handle] = true",
+				"ensureCriticalSectionWith does not record the handle in dirtyResourceHandles on every path: a touched resource would be neither committed nor aborted")
+		}
 	}
 	for _, name := range []string{"Read", "Write"} {
 		fn := mustMethod(c, e, an.PkgDistsys, "ArchetypeInterface", name)
@@ -829,6 +968,71 @@ func runCallOrder(c *core.Ctx) {
 				}
 				c.Check(ok, fmt.Sprintf("Call:save-before-bind#%d", i+1), w.Pos(), "the variable is read (saved) before it is overwritten with the argument",
 					"a state variable is overwritten with the argument before its current value is saved into the frame: the caller's value is lost")
+			}
+			// the i-th argument is bound to the i-th state variable, and only while i ranges over the arguments
+			if keyObj := an.ObjOf(info, loop.Key); keyObj != nil {
+				for i, w := range writes {
+					wc := w.(*ast.CallExpr)
+					k := fmt.Sprintf("Call:binds-ith-argument#%d", i+1)
+					if len(wc.Args) != 3 {
+						continue
+					}
+					ix, ok := an.Unparen(wc.Args[2]).(*ast.IndexExpr)
+					if !ok || an.ObjOf(info, ix.Index) != keyObj {
+						c.Bad(k, w.Pos(), "the value bound to the i-th state variable is not argVals[i]")
+						continue
+					}
+					args := an.ObjOf(info, ix.X)
+					guarded := false
+					for _, blk := range g.CFG.Blocks {
+						cd, _ := g.Cond(blk)
+						if cd == nil {
+							continue
+						}
+						ex := ast.Expr(cd)
+						neg := false
+						for {
+							ex = an.Unparen(ex)
+							u, isU := ex.(*ast.UnaryExpr)
+							if !isU || u.Op != token.NOT {
+								break
+							}
+							neg = !neg
+							ex = u.X
+						}
+						be, isB := ex.(*ast.BinaryExpr)
+						if !isB {
+							continue
+						}
+						isLen := func(x ast.Expr) bool {
+							cl, ok := an.Unparen(x).(*ast.CallExpr)
+							return ok && an.IsBuiltin(info, cl, "len") && len(cl.Args) == 1 && an.ObjOf(info, cl.Args[0]) == args
+						}
+						isKey := func(x ast.Expr) bool { return an.ObjOf(info, x) == keyObj }
+						inRange, known := false, false
+						switch {
+						case isKey(be.X) && isLen(be.Y):
+							switch be.Op {
+							case token.LSS:
+								inRange, known = true, true
+							case token.GEQ:
+								inRange, known = false, true
+							}
+						case isLen(be.X) && isKey(be.Y):
+							switch be.Op {
+							case token.GTR:
+								inRange, known = true, true
+							case token.LEQ:
+								inRange, known = false, true
+							}
+						}
+						if known && g.GuardedBy(w, cd, inRange != neg) {
+							guarded = true
+						}
+					}
+					c.Check(guarded, k, w.Pos(), "argVals[i] is bound only while i < len(argVals)",
+						"the binding of argVals[i] is not guarded by i < len(argVals): arguments are not bound (the callee sees the caller's stale values) or locals beyond the arguments index out of range")
+				}
 			}
 			// the saved value goes into the frame builder under the variable's name
 			saved := false
